@@ -92,8 +92,10 @@ func checkC08(e *Env) {
 			w("expires", be8("param:expires")),
 			w("url.len", be8("conv(len(conv(param:e.RequestURI)))")),
 			w("url", "conv(param:e.RequestURI)"),
-			w("headers.len", be8("conv(call:(*bytes.Buffer).Len({alloc:bytes.Buffer|local:*}))")),
-			{"headers", gate.CallInstr("headers", "(*bytes.Buffer).WriteTo", "{alloc:bytes.Buffer|local:*}", "local:buf")},
+			w("headers.len", be8("conv({call:(*bytes.Buffer).Len({alloc:bytes.Buffer|local:*})|len(call:(*bytes.Buffer).Bytes({alloc:bytes.Buffer|local:*}))})")),
+			{"headers", either("headers", "the header CBOR is appended to the message",
+				gate.CallInstr("", "(*bytes.Buffer).WriteTo", "{alloc:bytes.Buffer|local:*}", "local:buf"),
+				gate.CallInstr("", "(*bytes.Buffer).Write", "local:buf", "call:(*bytes.Buffer).Bytes({alloc:bytes.Buffer|local:*})"))},
 		}
 		// the separator 0 and the "cert-sha256 not set" 0 are both WriteByte(0): split by the certSha256 test
 		e.sequenceOrder("ORDER", ssm, cfg, "signed-message", append(steps[:2:2], steps[3:]...))
